@@ -35,6 +35,7 @@ pub fn run_case(kvs: &[Kv], geom: Geom, all_bytes: bool, extra: &[Key]) -> Resul
             n += 1;
             let want = model.get(p).copied();
             let got = f.get(p).map(|o| o.value());
+            crate::ev::obs(crate::ev::fnv(p) ^ got.unwrap_or(u64::MAX - 1).wrapping_mul(0x9E37_79B9_7F4A_7C15));
             if got != want {
                 return Err(format!("Fst::get({}) = {:?}, expected {:?}", key_str(p), got, want));
             }
